@@ -156,8 +156,10 @@ def plan_c07():
 PLANS = {}
 PLANS["C01"] = plan_core("C01", "c01", "ledger + sanitizers over scheduled executions",
                          extra_jobs=lambda tier, seed: miri_race_jobs("C01", tier, [("a", "tp"), ("b", "tp"), ("c", "arc"), ("e", "arc")], 8, 256))
-PLANS["C02"] = plan_core("C02", "c02", "conservation law at quiescent points")
-PLANS["C03"] = plan_core("C03", "c03", "history linearizability", asan=False)
+PLANS["C02"] = plan_core("C02", "c02", "conservation law at quiescent points",
+                         extra_jobs=lambda tier, seed: miri_race_jobs("C02", tier, [("a", "tp"), ("c", "tp"), ("b", "arc")], 8, 192))
+PLANS["C03"] = plan_core("C03", "c03", "history linearizability", asan=False,
+                         extra_jobs=lambda tier, seed: [life_job("C03.life.token", "token", execs=T(tier, 400, 20000), profile="c03")])
 PLANS["C04"] = plan_core("C04", "c04", "chain / conservation of writes", asan=False, required=["load.fast_confirmed", "load.fallback_confirmed", "write.helped_reader"])
 PLANS["C05"] = plan_core("C05", "c05", "compare-and-swap histories", asan=False, required=["cas.internal_retry", "load.fallback_confirmed"])
 PLANS["C06"] = plan_core("C06", "c06", "rcu histories", asan=False, required=["rcu.retried", "load.fallback_confirmed"])
